@@ -21,8 +21,28 @@ pub enum Outcome {
     Panic(String),
 }
 
+/// Equality of two results: the library's own `==` on id / tree / diagnostics AND equality of
+/// every public field as printed by the canonical form (unordered containers printed sorted).
+/// The second half matters only for a library whose `==` skips fields.
 pub fn result_eq(a: &FileResult, b: &FileResult) -> bool {
-    a.id == b.id && a.ast == b.ast && a.diagnostics == b.diagnostics
+    a.id == b.id && a.ast == b.ast && a.diagnostics == b.diagnostics && fields_eq(a, b)
+}
+
+/// Field-by-field equality of tree and diagnostics (ids are compared by the caller)
+pub fn fields_eq(a: &FileResult, b: &FileResult) -> bool {
+    if a.diagnostics.len() != b.diagnostics.len() {
+        return false;
+    }
+    for (x, y) in a.diagnostics.iter().zip(b.diagnostics.iter()) {
+        if diag_line(x) != diag_line(y) {
+            return false;
+        }
+    }
+    match (&a.ast, &b.ast) {
+        (None, None) => true,
+        (Some(x), Some(y)) => format!("{:?}", canonical_tree(x)) == format!("{:?}", canonical_tree(y)),
+        _ => false,
+    }
 }
 
 /// First difference between two outcomes: (id, what differs)
@@ -51,6 +71,12 @@ pub fn first_difference(a: &Outcome, b: &Outcome) -> Option<(String, String)> {
                         }
                         if rx.diagnostics != ry.diagnostics {
                             return Some((format!("{}", k.display()), "diagnostics".to_owned()));
+                        }
+                        if !fields_eq(rx, ry) {
+                            return Some((
+                                format!("{}", k.display()),
+                                "fields that the library's own == does not compare".to_owned(),
+                            ));
                         }
                     }
                 }
